@@ -94,8 +94,15 @@ def sexa_values(seed, n, shard):
 
 def gen_sexa(seed, n, shard):
     from pymeeus.Angle import Angle
-    for v in sexa_values(seed, n, shard):
+    for i, v in enumerate(sexa_values(seed, n, shard)):
         a = Angle(v)
+        # "any Angle": also Angles carrying a non-default comparison tolerance (set directly or inherited by a copy);
+        # the tolerance belongs to == and must not leak into the decomposition or the printed forms
+        tol = (None, None, 0.0, 1e-3, 1e-6)[i % 5]
+        if tol is not None:
+            a.set_tolerance(tol)
+            if i % 2:
+                a = Angle(a)
         val = a()
         fv = fx(val)
         vs = (val > 0) - (val < 0)
